@@ -110,8 +110,42 @@ class C10(Check):
     per_case_timeout = 20
     # NOTE (harness agent): the texts below describe the tie between model and code only; the proof
     # part (theorems, what is modelled/proved) is to be completed by the owner of coq/Future.
-    level_text = ''
-    level_note = ('Tie between model/spec and the C++ (validated by correspondence only, not proved): the harness includes the '
+    level_text = ('Theorems in Coq, for every schedule (list of thread moves) and every well-formed configuration (queue capacity, '
+                  'pool bounds, lazy pool creation, any number of client threads, futures and script operations, any started '
+                  'function) of an executable interleaving model of src/Future.cpp + Future.hpp (threads = program counters over '
+                  'the atomic steps of the code: MPMC ring push/pop with per-slot sequence numbers, FastSignal set/reset/wait '
+                  'split at the atomic operation and the inner Signal, worker loop, ThreadPool::run with back-pressure, growing '
+                  'and shrinking, lazy pool creation under the spin lock, Future start/join/abort/set/result): an inductive '
+                  'invariant (ring ticket invariant composed with "who holds which call" clauses and a trace property) gives: '
+                  'each started call is executed at most once; when join()/the destructor/the result conversion returns the call '
+                  'has been executed exactly once with the arguments given and has completed; the converted result is the '
+                  "function's return value; after join the state is aborted only if abort() was requested since the start and "
+                  'finished otherwise; no ring slot is handed to two consumers or producers, a pop returns the job pushed under its '
+                  'ticket, queued jobs are not lost. The liveness clause is refuted by a machine-checked witness for the sleep/wake '
+                  'handshake as it was before fixes/C10/01-03 (three genuine lost-wake-up defects, repaired); for the repaired code '
+                  'it is validated by explicit-state search of the model and by real-thread runs, not proved. The model is tied to '
+                  'the code by running the same client scripts on the extracted model/spec and on an ASan/UBSan build of the working '
+                  'tree with real threads under injected delays and gated replays of model schedules.')
+    level_note = ('PROVED (Properties_C10.v, all closed under the global context): model_invariant_all_schedules, '
+                  'each_call_runs_at_most_once, joined_call_ran_exactly_once, run_uses_given_arguments, starts_unique, '
+                  'result_is_return_value, aborted_only_if_requested, ring_ticket_invariant, ring_no_two_consumers, '
+                  'ring_no_two_producers, ring_pop_reads_pushed, ring_no_job_lost, deadlock_is_permanent, '
+                  'join_liveness_refuted_original (exists a schedule of the OLD handshake, c_fixed=false, ending in a state with an '
+                  'unfinished client in which no thread can ever move; 170-move witness by vm_compute). Hypothesis of all safety '
+                  'theorems: wf_cfg = capacity >= 1, every future named in a script exists and is used by ONE client thread (two '
+                  'threads operating one Future object concurrently is outside the statement). NOT PROVED: "every join eventually '
+                  'returns" for the code as it is now (c_fixed=true: worker re-arms the wake-up after a successful second pop, '
+                  'FastSignal::reset re-checks _state, the shrink request wakes a worker). It is validated only by (1) exhaustive '
+                  'explicit-state search (ocaml/future_driver.ml search, not a proof) of the model: 1 client, 3 workers, windows of 4 '
+                  'script operations, queue capacity 4 (8.9M states) and 1 (15.5M states): no reachable state with all threads '
+                  'blocked and a client unfinished, while the same search finds the deadlocks of the old handshake; (2) the '
+                  'real-thread runs below. Fairness of the OS scheduler is not modelled. Modelling abstractions: sequential '
+                  'consistency (visibility on real hardware is not modelled); Signal (mutex+condvar+flag) is an atomic flag with a '
+                  'wait that passes iff set (its own correctness is C11); Time::ticks is a scheduler-chosen bit; the Thread object '
+                  'list (_threads/_terminated), ~ThreadPool and deletion of the call record are not modelled; counters are '
+                  'unbounded. '
+                  'Tie between model/spec and the C++ (validated by correspondence only, not proved): the harness includes the '
+
                   'working tree\'s src/Future.cpp, installs a ThreadPool(min,max,queue) per case and runs the client scripts as real '
                   'threads; every __sync builtin in Future.cpp (force-included harness/future_points.h) calls a hook before and after, '
                   'pthread_cond_wait/pthread_cond_broadcast of libnstd are wrapped (ld --wrap). The hooks inject (a) pseudo-random '
@@ -287,6 +321,33 @@ class C10(Check):
                          + profile_lines('publish') + gen_script(rng, ncl, rng.randrange(10, 50), works=(0, 0, 1)))
         out.append(Stream('publish', cases, note='pushers/poppers delayed between ticket claim and slot publication, queue capacity 1-4'))
         return out
+
+    def extra_checks(self, tier, rng, ctx):
+        """Explicit-state SEARCH of the model (never a proof) for a reachable state in which a client is
+        unfinished and no thread can move.  The old handshake (C10_ORIGINAL=1) must show its deadlock
+        (the search machinery is alive), the model of the code as it is now must not."""
+        drv = self.exes.get('model')
+        if not drv:
+            return
+        sdir = os.path.join(VERIF, 'corpus', self.id, 'search')
+        jobs = [('window-q4.ops', '7', '900000', {'C10_ORIGINAL': '1'}, True),
+                ('window-q4.ops', '5', '400000', {}, False)]
+        if tier == 'thorough':
+            jobs += [('window-q4.ops', '7', '12000000', {}, False), ('window-q1.ops', '6', '20000000', {}, False)]
+        for f, window, limit, env, expect in jobs:
+            e = dict(os.environ)
+            e.update(env)
+            rc, out, err = sh([drv, 'search', os.path.join(sdir, f), window, limit], timeout=1500, env=e)
+            found = 'deadlock after' in out
+            head = ' / '.join(l for l in out.split('\n') if l.startswith('#'))
+            log('[C10] model search %s window=%s %s: %s' % (f, window, 'old handshake' if env else 'current code', head))
+            if rc != 0 or found != expect:
+                sched = [l for l in out.split('\n') if l.startswith('s ')]
+                p = self.write_replay('no-failing-input-found',
+                                      'explicit-state search of the model (%s, window %s, %s): %s'
+                                      % (f, window, 'old handshake must deadlock' if expect else 'current code must not deadlock', head or err[-300:]),
+                                      sched[:400], {'file': f, 'window': window, 'limit': limit, 'rc': rc})
+                ctx['violations'].append((p, ' no-failing-input-found'))
 
 
 CHECK = C10
